@@ -18,12 +18,12 @@ T = {
  "C12b": ("C12", r"l_evict_lru_exact_n2$"),
  "C08a": ("C08", r"dq_pop_2$"),
  "C08b": ("C08", r"s_eviction_counters_never_overflow$"),
- "C09a": ("C09", None, "self-deadlock on a DashMap shard lock: the container model has no locks and no schedules are explored"),
+ "C09a": ("C09", r"c09_get_expired_releases_guard$"),
  "C09b": ("C09", r"l_evict_lru_terminates_on_unevictable_node$"),
  "C11a": ("C11", r"insert_new_ttl_full$"),
  "C11b": ("C11", r"invalidate_of_a_pending_insert_queues_its_removal$"),
  "C13a": ("C13", r"insert_new_n2_w_no_prefix$"),
- "C13b": ("C13", None, "needs the TinyLFU admission path of handle_upsert on the sync cache (> 40 GB)"),
+ "C13b": ("C13", r"l_upsert_admission_n1_hot$"),
  "C14a": ("C14", r"l3_n[12]$"),
  "C14b": ("C14", r"get0_ttl_on_deadline$"),
  "C15a": ("C15", r"contains0_tti_1ns_before$"),
@@ -32,6 +32,35 @@ T = {
  "C16b": ("C16", r"s_iterfilter0_before_watermark_no_expiry$"),
  "C17a": ("C17", r"beyond_limit_always_panics$"),
  "C17b": ("C17", r"sync_policy_reports_exactly_the_knobs$"),
+ # ---- batch 3 (c) and batch 4 (d); C09a/C12b/C13b re-targeted after the guard model / concrete-sketch admission queries
+ "C01c": ("C01", r"l_purge_fresh_front_keeps_watermark$"),
+ "C04c": ("C04", r"l_upsert_update_n1$"),
+ "C05c": ("C05", r"l_upsert_update_n2_lru_ttl$|s_upsert_new_fits$"),
+ "C06c": ("C06", r"s_get0_tti_deadline$"),
+ "C07c": ("C07", r"l_purge_fresh_front_keeps_watermark$"),
+ "C08c": ("C08", r"l_burst_ins1_inv0_cap1_hot$"),
+ "C09c": ("C09", r"l_upsert_admission_before_sketch_is_enabled$"),
+ "C11c": ("C11", r"l_upsert_update_n1$"),
+ "C12c": ("C12", r"s_admit_lemma_n2$"),
+ "C13c": ("C13", r"s_admit_lemma_n2$"),
+ "C14c": ("C14", r"l2_n[124]$"),
+ "C15c": ("C15", r"contains_key_and_iter_are_not_maintenance_points$"),
+ "C16c": ("C16", r"s_insert_update1_no_expiry$"),
+ "C17c": ("C17", r"sync_initial_capacity_is_inert$"),
+ "C01d": ("C01", r"s_k1_is_expired_wo$|s_get0_before_watermark$|s_iterfilter0_before_watermark_no_expiry$"),
+ "C03d": ("C03", r"purge_both_zero_dur_w$|purge_tti_on_deadline_w$"),
+ "C04d": ("C04", r"l_sync_idle_over_capacity_evicts$"),
+ "C05d": ("C05", r"sync_iter_skips_entry_that_expires_after_iter_was_created$"),
+ "C06d": ("C06", r"get0_tti_on_deadline$"),
+ "C07d": ("C07", r"invalidate_removes_an_idle_expired_entry$"),
+ "C08d": ("C08", r"insert_new_ttl_full$"),
+ "C09d": ("C09", r"schedule_write_op_retries_maintenance_until_the_queue_has_room$"),
+ "C10d": ("C10", r"insert_upd0_n2_w_oversize$"),
+ "C11d": ("C11", r"purge_both_1ns_before_w$|purge_tti_on_deadline_w$"),
+ "C12d": ("C12", r"get_hit1_n2_tti_sym$|get_hit0_n2_ttl_sym$"),
+ "C13d": ("C13", r"insert_new_n2_full$"),
+ "C14d": ("C14", r"invalidate_all_n2$|invalidate_all_both$"),
+ "C16d": ("C16", r"k1_is_expired_entry_reads_the_entrys_own_nodes$|iter_max_dur$"),
 }
 if __name__ == "__main__":
     import sys, re
